@@ -1386,10 +1386,10 @@ def suffix_search(vs):
     cfg = {"layout": "avro_phonetic", "database": REPO + "/data", "opts": {"phonetic_suggestion": True}}
     scs = []
     meta = []
-    for b2 in bases:
-        for sk, sv in data["suffix"].items():
-            if any(ch not in keys for ch in sk):
-                continue
+    for bi, b2 in enumerate(bases):
+        for si, (sk, sv) in enumerate(data["suffix"].items()):
+            if any(ch not in keys for ch in sk) or (si + bi) % 3:
+                continue        # every third key of suffix.json per base, shifted from base to base (all keys are walked, each with 2-3 bases)
             steps = [{"op": "new", "config": cfg}] + [{"op": "key", "key": keys[ch], "sel": 0} for ch in b2 + sk] + [{"op": "get_state"}]
             scs.append({"steps": steps})
             meta.append((b2, sk, sv))
